@@ -1,8 +1,786 @@
-//! C13 — generator and driver of the real API.
+//! C13 — BED and GFF/GTF records survive write → read; comments skipped; malformed lines are errors.
+//!
+//! ```text
+//! bed <recs> <comments> <fault>            recs  = `/`-list of `chrom;start;end[;aux…]`   (`-` = no record)
+//! gff <gff3|gff2|gtf2> <recs> <comments> <fault> <style>
+//!                                          recs  = `/`-list of `seq;src;type;start;end;score;strand;phase;attrs`
+//!                                          phase = n|0|1|2 ; attrs = `,`-list of `key:v1:v2…` in insertion order (`-` = none)
+//! ```
+//! String fields are hex (`-` = empty).  comments = `,`-list of `pos:hex` — the line `hex` (empty, or starting
+//! with `#`) is inserted before record `pos`.  fault = `none` | `set:<line>:<col>:<hex>` | `add:<line|all>:<hex>` |
+//! `del:<line>:<col>` | `cut:<o1>:<o2>…` and is applied to the bytes the real writer produced.
+//!
+//! style = plain|spaced|quoted: the harness additionally writes the records itself in the *intended* format
+//! (every value of every key; `spaced` = `; ` between attributes and a trailing `;`, `quoted` = additionally every
+//! value in double quotes, the usual GTF look) and lets the real reader read that: `m:<hex>=<results>` (GFF only).
+//!
+//! Observation: `w:<hex> r:<results> c:<results> rw:<hex|x> f:<faulted hex>=<results>` (for `cut`:
+//! `f:<results>/<results>…`, one per offset; for `none`: `f:-`).  `w` = bytes written by the real writer, `r` = the
+//! real reader on `w`, `c` = the real reader on `w` with the comment lines inserted, `rw` = the records of `r`
+//! written again (GFF only; `x` when `r` has an error).  results = `|`-list of `err` / `ok=<record>`;
+//! BED record = `chrom;start;end;aux…~name~score~strand` (accessors; `N` = None, strand f|r|n);
+//! GFF record = `seq;src;type;start;end;<score N|number>;<strand f|r|n>;<phase>;<attrs, keys sorted>`.
+//!
+//! Domain (recorded in meta/C13.json): fields are printable ASCII without `"`, the first field does not start
+//! with `#`, BED records of one case have the same number of columns, attribute keys/values are non-empty, avoid
+//! the dialect's delimiters, do not begin or end with a quote character, keys do not begin with a blank.
 use crate::util::*;
+use bio::io::{bed, gff};
+use std::cell::RefCell;
+use std::convert::TryInto;
+use std::io::Write;
+use std::rc::Rc;
 
-pub fn gen(_tier: &str, _rng: &mut Rng, _out: &mut Vec<String>) {}
+#[derive(Clone)]
+struct Shared(Rc<RefCell<Vec<u8>>>);
+impl Write for Shared {
+    fn write(&mut self, b: &[u8]) -> std::io::Result<usize> {
+        self.0.borrow_mut().extend_from_slice(b);
+        Ok(b.len())
+    }
+    fn flush(&mut self) -> std::io::Result<()> {
+        Ok(())
+    }
+}
 
-pub fn exec(_toks: &[&str]) -> Result<String, String> {
-    Err("unimplemented".into())
+fn field_ok(b: &[u8]) -> bool {
+    b.iter().all(|&c| (0x20..=0x7e).contains(&c) && c != b'"')
+}
+
+fn s(b: &[u8]) -> String {
+    String::from_utf8(b.to_vec()).unwrap()
+}
+
+// ------------------------------------------------------------------------------------------------ case model
+
+#[derive(Clone)]
+struct BedRec {
+    chrom: Vec<u8>,
+    start: u64,
+    end: u64,
+    aux: Vec<Vec<u8>>,
+}
+
+#[derive(Clone)]
+struct GffRec {
+    seq: Vec<u8>,
+    src: Vec<u8>,
+    typ: Vec<u8>,
+    start: u64,
+    end: u64,
+    score: Vec<u8>,
+    strand: Vec<u8>,
+    phase: Option<u8>,
+    attrs: Vec<(Vec<u8>, Vec<Vec<u8>>)>,
+}
+
+fn dialect(d: &str) -> Result<(gff::GffType, u8, u8, u8), String> {
+    match d {
+        "gff3" => Ok((gff::GffType::GFF3, b'=', b';', b',')),
+        "gff2" => Ok((gff::GffType::GFF2, b' ', b';', 0)),
+        "gtf2" => Ok((gff::GffType::GTF2, b' ', b';', 0)),
+        _ => Err("dialect".into()),
+    }
+}
+
+fn attr_ok(b: &[u8], delim: u8, term: u8, vdelim: u8, is_key: bool) -> bool {
+    let q = |c: u8| c == b'\'' || c == b'"';
+    !b.is_empty()
+        && field_ok(b)
+        && !b.contains(&delim)
+        && !b.contains(&term)
+        && (is_key || !b.contains(&vdelim))
+        && !q(b[0])
+        && !q(b[b.len() - 1])
+        && !(is_key && b[0] == b' ')
+}
+
+fn parse_bed(tok: &str) -> Result<Vec<BedRec>, String> {
+    let mut out = vec![];
+    for r in split_list(tok, '/') {
+        let f: Vec<&str> = r.split(';').collect();
+        if f.len() < 3 {
+            return Err("bed record needs chrom;start;end".into());
+        }
+        let rec = BedRec {
+            chrom: unhex(f[0])?,
+            start: parse(f[1])?,
+            end: parse(f[2])?,
+            aux: f[3..].iter().map(|x| unhex(x)).collect::<Result<_, _>>()?,
+        };
+        if !field_ok(&rec.chrom) || rec.chrom.first() == Some(&b'#') || !rec.aux.iter().all(|a| field_ok(a)) {
+            return Err("field outside the domain".into());
+        }
+        out.push(rec);
+    }
+    if out.windows(2).any(|w| w[0].aux.len() != w[1].aux.len()) {
+        return Err("BED records of one file must have the same number of columns".into());
+    }
+    Ok(out)
+}
+
+fn parse_gff(tok: &str, d: &str) -> Result<Vec<GffRec>, String> {
+    let (_, delim, term, vdelim) = dialect(d)?;
+    let mut out = vec![];
+    for r in split_list(tok, '/') {
+        let f: Vec<&str> = r.split(';').collect();
+        if f.len() != 9 {
+            return Err("gff record needs 9 fields".into());
+        }
+        let phase = match f[7] {
+            "n" => None,
+            "0" => Some(0),
+            "1" => Some(1),
+            "2" => Some(2),
+            _ => return Err("phase".into()),
+        };
+        let mut attrs = vec![];
+        for a in split_list(f[8], ',') {
+            let kv: Vec<&str> = a.split(':').collect();
+            if kv.len() < 2 {
+                return Err("attribute needs key:value".into());
+            }
+            let k = unhex(kv[0])?;
+            let vs: Vec<Vec<u8>> = kv[1..].iter().map(|x| unhex(x)).collect::<Result<_, _>>()?;
+            if !attr_ok(&k, delim, term, vdelim, true) || !vs.iter().all(|v| attr_ok(v, delim, term, vdelim, false)) {
+                return Err("attribute outside the domain".into());
+            }
+            attrs.push((k, vs));
+        }
+        let rec = GffRec {
+            seq: unhex(f[0])?,
+            src: unhex(f[1])?,
+            typ: unhex(f[2])?,
+            start: parse(f[3])?,
+            end: parse(f[4])?,
+            score: unhex(f[5])?,
+            strand: unhex(f[6])?,
+            phase,
+            attrs,
+        };
+        if ![&rec.seq, &rec.src, &rec.typ, &rec.score, &rec.strand].iter().all(|x| field_ok(x))
+            || rec.seq.first() == Some(&b'#')
+        {
+            return Err("field outside the domain".into());
+        }
+        out.push(rec);
+    }
+    Ok(out)
+}
+
+fn parse_comments(tok: &str, nrec: usize) -> Result<Vec<(usize, Vec<u8>)>, String> {
+    let mut out = vec![];
+    for c in split_list(tok, ',') {
+        let (p, h) = c.split_once(':').ok_or("comment needs pos:hex")?;
+        let pos: usize = parse(p)?;
+        let line = unhex(h)?;
+        let printable = line.iter().all(|&c| c == b'\t' || ((0x20..=0x7e).contains(&c) && c != b'"'));
+        if pos > nrec || !printable || !(line.is_empty() || line[0] == b'#') {
+            return Err("comment outside the domain".into());
+        }
+        out.push((pos, line));
+    }
+    Ok(out)
+}
+
+/// the written file with the comment lines inserted before the records they are attached to
+fn with_comments(w: &[u8], comments: &[(usize, Vec<u8>)]) -> Result<Vec<u8>, String> {
+    let mut lines: Vec<&[u8]> = w.split(|&c| c == b'\n').collect();
+    if lines.last().map(|l| l.is_empty()).unwrap_or(false) {
+        lines.pop();
+    }
+    let mut out = vec![];
+    for i in 0..=lines.len() {
+        for (p, c) in comments {
+            if *p == i || (i == lines.len() && *p > i) {
+                out.extend_from_slice(c);
+                out.push(b'\n');
+            }
+        }
+        if i < lines.len() {
+            out.extend_from_slice(lines[i]);
+            out.push(b'\n');
+        }
+    }
+    Ok(out)
+}
+
+enum Fault {
+    None,
+    Bytes(Vec<u8>),
+    Cuts(Vec<usize>),
+}
+
+fn apply_fault(w: &[u8], tok: &str) -> Result<Fault, String> {
+    let p: Vec<&str> = tok.split(':').collect();
+    if p[0] == "none" && p.len() == 1 {
+        return Ok(Fault::None);
+    }
+    if p[0] == "cut" {
+        let mut offs = vec![];
+        for o in &p[1..] {
+            let o: usize = parse(o)?;
+            if o > w.len() {
+                return Err("cut beyond the end".into());
+            }
+            offs.push(o);
+        }
+        if offs.is_empty() {
+            return Err("cut needs offsets".into());
+        }
+        return Ok(Fault::Cuts(offs));
+    }
+    let mut lines: Vec<Vec<Vec<u8>>> = w
+        .split(|&c| c == b'\n')
+        .map(|l| l.split(|&c| c == b'\t').map(|f| f.to_vec()).collect())
+        .collect();
+    if lines.last().map(|l| l.len() == 1 && l[0].is_empty()).unwrap_or(false) {
+        lines.pop();
+    }
+    let n = lines.len();
+    match (p[0], p.len()) {
+        ("set", 4) => {
+            let (l, c): (usize, usize) = (parse(p[1])?, parse(p[2])?);
+            let b = unhex(p[3])?;
+            if l >= n || c >= lines[l].len() || !field_ok(&b) || (c == 0 && b.first() == Some(&b'#')) {
+                return Err("set outside the file / domain".into());
+            }
+            lines[l][c] = b;
+        }
+        ("add", 3) => {
+            let b = unhex(p[2])?;
+            if !field_ok(&b) || n == 0 {
+                return Err("add outside the domain".into());
+            }
+            if p[1] == "all" {
+                for l in lines.iter_mut() {
+                    l.push(b.clone());
+                }
+            } else {
+                let l: usize = parse(p[1])?;
+                if l >= n {
+                    return Err("add outside the file".into());
+                }
+                lines[l].push(b);
+            }
+        }
+        ("del", 3) => {
+            let (l, c): (usize, usize) = (parse(p[1])?, parse(p[2])?);
+            if l >= n || c >= lines[l].len() || lines[l].len() < 2 {
+                return Err("del outside the file".into());
+            }
+            lines[l].remove(c);
+            if lines[l][0].first() == Some(&b'#') || (lines[l].len() == 1 && lines[l][0].is_empty()) {
+                return Err("del would create a comment or blank line".into());
+            }
+        }
+        _ => return Err("fault".into()),
+    }
+    let mut out = vec![];
+    for l in &lines {
+        out.extend_from_slice(&l.join(&b'\t'));
+        out.push(b'\n');
+    }
+    Ok(Fault::Bytes(out))
+}
+
+// ------------------------------------------------------------------------------------------------ real API
+
+fn opt_hex(x: Option<&str>) -> String {
+    match x {
+        None => "N".into(),
+        Some(v) => hex(v.as_bytes()),
+    }
+}
+
+fn bed_read(bytes: &[u8]) -> String {
+    let mut reader = bed::Reader::new(bytes);
+    let mut res = vec![];
+    for r in reader.records() {
+        match r {
+            Err(_) => res.push("err".to_string()),
+            Ok(rec) => {
+                let mut f = vec![hex(rec.chrom().as_bytes()), rec.start().to_string(), rec.end().to_string()];
+                let mut i = 3;
+                while let Some(a) = rec.aux(i) {
+                    f.push(hex(a.as_bytes()));
+                    i += 1;
+                }
+                let strand = match rec.strand() {
+                    Some(bio_types::strand::Strand::Forward) => "f",
+                    Some(bio_types::strand::Strand::Reverse) => "r",
+                    _ => "n",
+                };
+                res.push(format!("ok={}~{}~{}~{}", f.join(";"), opt_hex(rec.name()), opt_hex(rec.score()), strand));
+            }
+        }
+    }
+    join(&res, "|")
+}
+
+fn bed_write(recs: &[BedRec]) -> Result<Vec<u8>, String> {
+    let buf = Shared(Rc::new(RefCell::new(vec![])));
+    {
+        let mut w = bed::Writer::new(buf.clone());
+        for r in recs {
+            let mut rec = bed::Record::new();
+            rec.set_chrom(&s(&r.chrom));
+            rec.set_start(r.start);
+            rec.set_end(r.end);
+            for a in &r.aux {
+                rec.push_aux(&s(a));
+            }
+            w.write(&rec).map_err(|e| format!("writer refused a record of the domain: {}", e))?;
+        }
+    }
+    let out = buf.0.borrow().clone();
+    Ok(out)
+}
+
+fn gff_read(bytes: &[u8], t: gff::GffType) -> (String, Vec<gff::Record>, bool) {
+    let mut reader = gff::Reader::new(bytes, t);
+    let mut res = vec![];
+    let mut recs = vec![];
+    let mut all_ok = true;
+    for r in reader.records() {
+        match r {
+            Err(_) => {
+                all_ok = false;
+                res.push("err".to_string())
+            }
+            Ok(rec) => {
+                let score = rec.score().map(|x| x.to_string()).unwrap_or_else(|| "N".into());
+                let strand = match rec.strand() {
+                    Some(bio_types::strand::Strand::Forward) => "f",
+                    Some(bio_types::strand::Strand::Reverse) => "r",
+                    _ => "n",
+                };
+                let ph: Option<u8> = rec.phase().clone().try_into().unwrap();
+                let phase = ph.map(|x| x.to_string()).unwrap_or_else(|| "n".into());
+                let mut kv: Vec<(Vec<u8>, Vec<String>)> = rec
+                    .attributes()
+                    .iter_all()
+                    .map(|(k, vs)| (k.as_bytes().to_vec(), vs.iter().map(|v| hex(v.as_bytes())).collect()))
+                    .collect();
+                kv.sort();
+                let attrs: Vec<String> = kv.iter().map(|(k, vs)| format!("{}:{}", hex(k), vs.join(":"))).collect();
+                res.push(format!(
+                    "ok={};{};{};{};{};{};{};{};{}",
+                    hex(rec.seqname().as_bytes()),
+                    hex(rec.source().as_bytes()),
+                    hex(rec.feature_type().as_bytes()),
+                    rec.start(),
+                    rec.end(),
+                    score,
+                    strand,
+                    phase,
+                    join(&attrs, ",")
+                ));
+                recs.push(rec);
+            }
+        }
+    }
+    (join(&res, "|"), recs, all_ok)
+}
+
+fn gff_write_real(recs: &[gff::Record], t: gff::GffType) -> Result<Vec<u8>, String> {
+    let buf = Shared(Rc::new(RefCell::new(vec![])));
+    {
+        let mut w = gff::Writer::new(buf.clone(), t);
+        for r in recs {
+            w.write(r).map_err(|e| format!("writer refused a record of the domain: {}", e))?;
+        }
+    }
+    let out = buf.0.borrow().clone();
+    Ok(out)
+}
+
+fn gff_build(recs: &[GffRec]) -> Vec<gff::Record> {
+    recs.iter()
+        .map(|r| {
+            let mut rec = gff::Record::new();
+            *rec.seqname_mut() = s(&r.seq);
+            *rec.source_mut() = s(&r.src);
+            *rec.feature_type_mut() = s(&r.typ);
+            *rec.start_mut() = r.start;
+            *rec.end_mut() = r.end;
+            *rec.score_mut() = s(&r.score);
+            *rec.strand_mut() = s(&r.strand);
+            *rec.phase_mut() = gff::Phase::from(r.phase);
+            for (k, vs) in &r.attrs {
+                for v in vs {
+                    rec.attributes_mut().insert(s(k), s(v));
+                }
+            }
+            rec
+        })
+        .collect()
+}
+
+/// the records in the intended file format, written by the harness (not by rust-bio): reader-only test input
+fn intended_bytes(recs: &[GffRec], d: &str, style: &str) -> Result<Vec<u8>, String> {
+    let (_, delim, term, vdelim) = dialect(d)?;
+    let (sep, trailing, quote): (&[u8], bool, bool) = match style {
+        "plain" => (&[term][..], false, false),
+        "spaced" => (&[term, b' '][..], true, false),
+        "quoted" => (&[term, b' '][..], true, true),
+        _ => return Err("style".into()),
+    };
+    let sep = sep.to_vec();
+    let q = |v: &[u8]| -> Vec<u8> {
+        if quote {
+            let mut o = vec![b'"'];
+            o.extend_from_slice(v);
+            o.push(b'"');
+            o
+        } else {
+            v.to_vec()
+        }
+    };
+    let mut out = vec![];
+    for r in recs {
+        let mut segs: Vec<Vec<u8>> = vec![];
+        for (k, vs) in &r.attrs {
+            if vdelim == 0 {
+                for v in vs {
+                    let mut s = k.clone();
+                    s.push(delim);
+                    s.extend(q(v));
+                    segs.push(s);
+                }
+            } else {
+                let mut s = k.clone();
+                s.push(delim);
+                s.extend(vs.iter().map(|v| q(v)).collect::<Vec<_>>().join(&vdelim));
+                segs.push(s);
+            }
+        }
+        let mut attrs = segs.join(&sep[..]);
+        if trailing && !segs.is_empty() {
+            attrs.push(term);
+        }
+        let phase = r.phase.map(|p| p.to_string()).unwrap_or_else(|| ".".into());
+        let fields: Vec<Vec<u8>> = vec![
+            r.seq.clone(),
+            r.src.clone(),
+            r.typ.clone(),
+            r.start.to_string().into_bytes(),
+            r.end.to_string().into_bytes(),
+            r.score.clone(),
+            r.strand.clone(),
+            phase.into_bytes(),
+            attrs,
+        ];
+        out.extend(fields.join(&b'\t'));
+        out.push(b'\n');
+    }
+    Ok(out)
+}
+
+pub fn exec(toks: &[&str]) -> Result<String, String> {
+    if toks.is_empty() {
+        return Err("arity".into());
+    }
+    match toks[0] {
+        "bed" => {
+            if toks.len() != 4 {
+                return Err("arity".into());
+            }
+            let recs = parse_bed(toks[1])?;
+            let comments = parse_comments(toks[2], recs.len())?;
+            let w = bed_write(&recs)?;
+            let fault = apply_fault(&w, toks[3])?;
+            let r = bed_read(&w);
+            let c = bed_read(&with_comments(&w, &comments)?);
+            let f = match fault {
+                Fault::None => "-".to_string(),
+                Fault::Bytes(b) => format!("{}={}", hex(&b), bed_read(&b)),
+                Fault::Cuts(offs) => offs.iter().map(|&o| bed_read(&w[..o])).collect::<Vec<_>>().join("/"),
+            };
+            Ok(format!("w:{} r:{} c:{} rw:x f:{}", hex(&w), r, c, f))
+        }
+        "gff" => {
+            if toks.len() != 6 {
+                return Err("arity".into());
+            }
+            let (t, _, _, _) = dialect(toks[1])?;
+            let recs = parse_gff(toks[2], toks[1])?;
+            let comments = parse_comments(toks[3], recs.len())?;
+            let w = gff_write_real(&gff_build(&recs), t)?;
+            let fault = apply_fault(&w, toks[4])?;
+            let (r, back, all_ok) = gff_read(&w, t);
+            let rw = if all_ok { hex(&gff_write_real(&back, t)?) } else { "x".to_string() };
+            let (c, _, _) = gff_read(&with_comments(&w, &comments)?, t);
+            let f = match fault {
+                Fault::None => "-".to_string(),
+                Fault::Bytes(b) => format!("{}={}", hex(&b), gff_read(&b, t).0),
+                Fault::Cuts(offs) => offs.iter().map(|&o| gff_read(&w[..o], t).0).collect::<Vec<_>>().join("/"),
+            };
+            let mb = intended_bytes(&recs, toks[1], toks[5])?;
+            let m = format!("{}={}", hex(&mb), gff_read(&mb, t).0);
+            Ok(format!("w:{} r:{} c:{} rw:{} f:{} m:{}", hex(&w), r, c, rw, f, m))
+        }
+        _ => Err("op".into()),
+    }
+}
+
+// ------------------------------------------------------------------------------------------------ generators
+
+const PLAIN: &[u8] = b"abcXYZ019_.-";
+const RICH: &[u8] = b"ab1 .-_#'=;,:+|/\\(){}<>@!?*&%$^~`[]";
+
+fn rand_field(rng: &mut Rng, allow_empty: bool) -> Vec<u8> {
+    let len = match rng.below(8) {
+        0 if allow_empty => 0,
+        0 | 1 => 1,
+        _ => 1 + rng.below(9),
+    };
+    let alpha = if rng.chance(1, 3) { RICH } else { PLAIN };
+    rng.seq(alpha, len)
+}
+
+fn rand_first_field(rng: &mut Rng) -> Vec<u8> {
+    loop {
+        let f = rand_field(rng, true);
+        if f.first() != Some(&b'#') {
+            return f;
+        }
+    }
+}
+
+fn rand_u64(rng: &mut Rng) -> u64 {
+    match rng.below(10) {
+        0 => 0,
+        1 => u64::MAX,
+        2 => rng.next(),
+        3 => 10u64.pow(rng.below(20) as u32),
+        4 => 10u64.pow(1 + rng.below(19) as u32) - 1,
+        _ => rng.below(100_000) as u64,
+    }
+}
+
+fn fmt_bed(r: &BedRec) -> String {
+    let mut f = vec![hex(&r.chrom), r.start.to_string(), r.end.to_string()];
+    f.extend(r.aux.iter().map(|a| hex(a)));
+    f.join(";")
+}
+
+fn fmt_gff(r: &GffRec) -> String {
+    let attrs: Vec<String> = r
+        .attrs
+        .iter()
+        .map(|(k, vs)| format!("{}:{}", hex(k), vs.iter().map(|v| hex(v)).collect::<Vec<_>>().join(":")))
+        .collect();
+    format!(
+        "{};{};{};{};{};{};{};{};{}",
+        hex(&r.seq),
+        hex(&r.src),
+        hex(&r.typ),
+        r.start,
+        r.end,
+        hex(&r.score),
+        hex(&r.strand),
+        r.phase.map(|p| p.to_string()).unwrap_or_else(|| "n".into()),
+        join(&attrs, ",")
+    )
+}
+
+fn gen_comments(rng: &mut Rng, nrec: usize) -> String {
+    if rng.chance(1, 3) {
+        return "-".into();
+    }
+    let n = 1 + rng.below(4);
+    let cs: Vec<String> = (0..n)
+        .map(|_| {
+            let pos = rng.below(nrec + 1);
+            let line: Vec<u8> = match rng.below(5) {
+                0 => vec![],
+                1 => b"#".to_vec(),
+                2 => {
+                    // a comment that looks like a record
+                    let mut l = b"#chr1\t5\t9".to_vec();
+                    let k = rng.below(6);
+                    l.extend(rng.seq(b"\tx1", k));
+                    l
+                }
+                _ => {
+                    let mut l = b"#".to_vec();
+                    let k = rng.below(12);
+                    l.extend(rng.seq(RICH, k));
+                    l
+                }
+            };
+            format!("{}:{}", pos, hex(&line))
+        })
+        .collect();
+    cs.join(",")
+}
+
+/// a fault for a file of `nrec` lines with `ncol` columns; `numeric` = columns holding coordinates, `phase` = phase column
+fn gen_fault(rng: &mut Rng, nrec: usize, ncol: usize, numeric: &[usize], phase: Option<usize>, wlen: usize) -> String {
+    if nrec == 0 {
+        return if rng.chance(1, 2) { "none".into() } else { "cut:0".into() };
+    }
+    let line = rng.below(nrec);
+    match rng.below(12) {
+        0 | 1 => "none".into(),
+        2 | 3 => {
+            // bad number
+            let col = *rng.pick(numeric);
+            let bad: &[&[u8]] = &[b"-1", b"x", b"", b"1.5", b" 5", b"5 ", b"12a", b"18446744073709551616", b"-", b"1e3", b"99999999999999999999999"];
+            format!("set:{}:{}:{}", line, col, hex(*rng.pick(bad)))
+        }
+        4 => match phase {
+            Some(pc) => {
+                let bad: &[&[u8]] = &[b"3", b"7", b"x", b"", b"-1", b"256", b"..", b"9", b"12"];
+                format!("set:{}:{}:{}", line, pc, hex(*rng.pick(bad)))
+            }
+            None => format!("del:{}:{}", line, rng.below(ncol)),
+        },
+        5 => format!("add:{}:{}", if rng.chance(1, 3) { "all".to_string() } else { line.to_string() }, hex(&rand_field(rng, true))),
+        6 => format!("del:{}:{}", line, rng.below(ncol)),
+        7 => {
+            // harmless replacement: a well-formed value
+            let col = *rng.pick(numeric);
+            format!("set:{}:{}:{}", line, col, hex(rand_u64(rng).to_string().as_bytes()))
+        }
+        _ => {
+            let n = 1 + rng.below(10);
+            let mut offs: Vec<String> = (0..n).map(|_| rng.below(wlen + 1).to_string()).collect();
+            if rng.chance(1, 2) {
+                offs.push(wlen.saturating_sub(1).to_string());
+            }
+            format!("cut:{}", offs.join(":"))
+        }
+    }
+}
+
+fn gen_bed(rng: &mut Rng, every_cut: bool) -> String {
+    let k = match rng.below(8) {
+        0 | 1 => 0,
+        2 => 1,
+        3 => 2,
+        4 | 5 => 3,
+        _ => 4 + rng.below(9),
+    };
+    let n = match rng.below(10) {
+        0 => 0,
+        1 | 2 => 1,
+        _ => 2 + rng.below(5),
+    };
+    let recs: Vec<BedRec> = (0..n)
+        .map(|_| BedRec {
+            chrom: rand_first_field(rng),
+            start: rand_u64(rng),
+            end: rand_u64(rng),
+            aux: (0..k)
+                .map(|j| {
+                    if j == 2 && rng.chance(2, 3) {
+                        rng.pick(&[&b"+"[..], b"-", b".", b""]).to_vec()
+                    } else {
+                        rand_field(rng, true)
+                    }
+                })
+                .collect(),
+        })
+        .collect();
+    let wlen = bed_write(&recs).map(|w| w.len()).unwrap_or(0);
+    let fault = if every_cut {
+        format!("cut:{}", (0..=wlen).map(|o| o.to_string()).collect::<Vec<_>>().join(":"))
+    } else {
+        gen_fault(rng, n, 3 + k, &[1, 2], None, wlen)
+    };
+    let recs_s: Vec<String> = recs.iter().map(fmt_bed).collect();
+    format!("bed {} {} {}", join(&recs_s, "/"), gen_comments(rng, n), fault)
+}
+
+fn rand_attr_token(rng: &mut Rng, delim: u8, term: u8, vdelim: u8, is_key: bool) -> Vec<u8> {
+    loop {
+        let cap = if rng.chance(1, 4) { 12 } else { 5 };
+        let len = 1 + rng.below(cap);
+        let alpha: &[u8] = if rng.chance(1, 3) { b"ab1 .-_#'=,:+|/()@" } else { b"abcID_019." };
+        let t: Vec<u8> = rng.seq(alpha, len);
+        if attr_ok(&t, delim, term, vdelim, is_key) {
+            return t;
+        }
+    }
+}
+
+fn gen_gff(rng: &mut Rng, every_cut: bool) -> String {
+    let d = *rng.pick(&["gff3", "gff3", "gff2", "gtf2"]);
+    let (t, delim, term, vdelim) = dialect(d).unwrap();
+    let n = match rng.below(10) {
+        0 => 0,
+        1 | 2 => 1,
+        _ => 2 + rng.below(4),
+    };
+    // a third of the files has single-valued attributes only
+    let multi = !rng.chance(1, 3);
+    let recs: Vec<GffRec> = (0..n)
+        .map(|_| {
+            let nk = match rng.below(6) {
+                0 => 0,
+                1 | 2 => 1,
+                _ => 2 + rng.below(4),
+            };
+            let mut attrs: Vec<(Vec<u8>, Vec<Vec<u8>>)> = vec![];
+            for _ in 0..nk {
+                let k = rand_attr_token(rng, delim, term, vdelim, true);
+                let nv = if multi && rng.chance(1, 3) { 2 + rng.below(3) } else { 1 };
+                let vs: Vec<Vec<u8>> = (0..nv)
+                    .map(|_| {
+                        if rng.chance(1, 8) && !attrs.is_empty() {
+                            attrs[0].1[0].clone() // a repeated value
+                        } else {
+                            rand_attr_token(rng, delim, term, vdelim, false)
+                        }
+                    })
+                    .collect();
+                if multi || !attrs.iter().any(|(k2, _)| *k2 == k) {
+                    attrs.push((k, vs));
+                }
+            }
+            GffRec {
+                seq: rand_first_field(rng),
+                src: rand_field(rng, true),
+                typ: rand_field(rng, true),
+                start: rand_u64(rng),
+                end: rand_u64(rng),
+                score: match rng.below(6) {
+                    0 | 1 => b".".to_vec(),
+                    2 => rand_u64(rng).to_string().into_bytes(),
+                    3 => rng.below(1000).to_string().into_bytes(),
+                    4 => rng.pick(&[&b"0.5"[..], b"1e5", b"abc", b"-3", b"1.0"]).to_vec(),
+                    _ => b"50".to_vec(),
+                },
+                strand: rng.pick(&[&b"+"[..], b"-", b".", b"?", b"+", b"-"]).to_vec(),
+                phase: *rng.pick(&[None, Some(0), Some(1), Some(2)]),
+                attrs,
+            }
+        })
+        .collect();
+    let wlen = gff_write_real(&gff_build(&recs), t).map(|w| w.len()).unwrap_or(0);
+    let fault = if every_cut {
+        format!("cut:{}", (0..=wlen).map(|o| o.to_string()).collect::<Vec<_>>().join(":"))
+    } else {
+        gen_fault(rng, n, 9, &[3, 4], Some(7), wlen)
+    };
+    let recs_s: Vec<String> = recs.iter().map(fmt_gff).collect();
+    let style = *rng.pick(&["plain", "plain", "spaced", "quoted"]);
+    format!("gff {} {} {} {} {}", d, join(&recs_s, "/"), gen_comments(rng, n), fault, style)
+}
+
+pub fn gen(tier: &str, rng: &mut Rng, out: &mut Vec<String>) {
+    let thorough = tier == "thorough";
+    let n = if thorough { 15_000 } else { 750 };
+    for _ in 0..n {
+        out.push(gen_bed(rng, false));
+        out.push(gen_gff(rng, false));
+    }
+    // truncation at *every* offset of the written file
+    let m = if thorough { 1_500 } else { 60 };
+    for _ in 0..m {
+        out.push(gen_bed(rng, true));
+        out.push(gen_gff(rng, true));
+    }
 }
